@@ -90,7 +90,7 @@ func (s *HistSpec) RunHistory(hist []Action, trace bool) HistResult {
 		all := append(append([]Action{}, s.Prefix...), hist...)
 		for i, a := range all {
 			switch a.Kind {
-			case "connect", "connectraw", "advance", "lpub", "lsub", "lunsub":
+			case "connect", "connectraw", "advance", "lpub", "lsub", "lunsub", "hostile", "hostile-dial", "hostile-cut":
 			default:
 				// the model may have closed this connection on its own (keep-alive,
 				// request answered by closing): the rest of the history is moot
